@@ -223,6 +223,18 @@ Definition c27_done_ok (mbt : option Z) (ws : list (Z * (Z * Z))) (d : done) : b
   | None => false
   end.
 
+(* (2b) a parked write is answered Ok at the very moment an ACKNACK (or the removal of a matched
+   reader) makes the replaced sample acknowledged by everybody: the completion is reported by that
+   event and stamped with its time.  Like (2) this looks only at simulated clock times, never at
+   the source timestamps of the samples. *)
+Definition c27_ok_when_acked (l : list (ev * out)) : bool :=
+  forallb (fun eo =>
+    forallb (fun d => let '(_, c, t) := d in
+                      if c =? 0
+                      then (t =? e_now (fst eo)) &&
+                           match e_op (fst eo) with OAck _ _ _ | OUnmatch _ => true | _ => false end
+                      else true) (o_done (snd eo))) l.
+
 (* (3) a parked write is answered once the blocking time has passed *)
 Definition c27_answered (mbt : option Z) (l : list (ev * out)) : bool :=
   let ws := writes_of l in
@@ -270,6 +282,7 @@ Definition C27_model_ok (c : W_case) : bool := W_model_ok c.
 Definition C27_oracle_ok (c : W_case) : bool :=
   forallb c27_reply_ok (c27_replies (wc_evs c)) &&
   forallb (c27_done_ok (q_mbt (wc_qos c)) (writes_of (wc_evs c))) (dones_of (wc_evs c)) &&
+  c27_ok_when_acked (wc_evs c) &&
   c27_answered (q_mbt (wc_qos c)) (wc_evs c) &&
   c27_recv_ok c &&
   c27_depth_ok c &&
@@ -278,6 +291,7 @@ Definition C27_oracle_ok (c : W_case) : bool :=
 (* class 1: the only thing wrong are second-blocked-write Error replies *)
 Definition C27_known (c : W_case) : N :=
   if forallb (c27_done_ok (q_mbt (wc_qos c)) (writes_of (wc_evs c))) (dones_of (wc_evs c)) &&
+     c27_ok_when_acked (wc_evs c) &&
      c27_answered (q_mbt (wc_qos c)) (wc_evs c) && c27_recv_ok c && c27_depth_ok c &&
      match q_hist (wc_qos c) with KeepLast 0 => negb (wc_created c) | _ => true end &&
      forallb (fun r => c27_reply_ok r || c27_reply_second_blocked r) (c27_replies (wc_evs c))
